@@ -74,6 +74,7 @@ pub fn dispatch(args: &[String]) -> i32 {
         "multi" => scen_multi(&ctx),
         "readonly" => scen_readonly(&ctx),
         "determ" => scen_determ(&ctx),
+        "genengine" => scen_genengine(&ctx),
         "rabuf" => crate::rabuf_scen::scen_rabuf(&ctx),
         "rabuf-child" => crate::rabuf_scen::child_main(Path::new(ctx.args.get("file").map(|s| s.as_str()).unwrap_or("."))),
         "child" => crate::exec::child_main(Path::new(ctx.args.get("dir").map(|s| s.as_str()).unwrap_or("."))),
@@ -470,6 +471,42 @@ pub fn scen_prop_hist(ctx: &Ctx) -> i32 {
         cyclic_bound(ctx, &mut b);
     }
     finish(ctx, "hist", &b, vec![])
+}
+
+/// the engine generated from the Rust source (driver `ge …`: `Gen.putKt`, `getKt`, `delKt`, … on the bytes of the
+/// three files) side by side with the real crate and the hand model: results per call, bytes at the comparison points
+pub fn scen_genengine(ctx: &Ctx) -> i32 {
+    let count = sizes(ctx, 60, 600);
+    let mut rng = Rng::new(ctx.seed ^ fnv("genengine"));
+    let mut seqs = Vec::new();
+    for i in 0..count {
+        let mut r = rng.fork(i as u64);
+        let kt = *r.pick(&Kt::ALL);
+        if i % 5 == 4 {
+            // relocation cascades (exact-fit key records, value file beyond 16 KiB)
+            let ckt = if r.chance(1, 2) { Kt::Bytes } else { Kt::Str };
+            seqs.push(gen_cascade(&mut r, ckt, 40));
+            continue;
+        }
+        let n = *r.pick(&[1u64, 2, 3, 8, 9, 64, 200]);
+        let mut p = Profile::basic(kt, n, r.range(20, 90) as usize);
+        p.w = [45, 15, 22, 6, 4, 0, 0, 0, 0, 0, 0, 0, 0, 0];
+        p.val_mode = *r.pick(&[0u8, 1, 1, 2]);
+        p.key_mode = *r.pick(&[0u8, 0, 1]);
+        p.pool = r.range(2, 14) as usize;
+        let mut s = gen_history(&mut r, &p);
+        // the generated engine has the byte-level calls only
+        s.ops = s.ops.iter().map(|o| o.base().0).collect();
+        seqs.push(s);
+    }
+    let b = run_batch(
+        ctx,
+        seqs,
+        |s| RunOpts { gen_engine: true, cmp_every: if s.ops.len() <= 60 { Some(0) } else { None }, cmp_end: true, ..Default::default() },
+        &["api", "oracle", "bytes", "gen-api", "gen-bytes"],
+        "genengine",
+    );
+    finish(ctx, "genengine", &b, vec![])
 }
 
 fn prop_uses_bytes(f: &[&str]) -> bool {
